@@ -108,13 +108,38 @@ def _seq(stmts, frame, budget):
     return results
 
 
+def _test_alts(test, frame, want, s):
+    """Ways for `test` to come out `want`, as tuples of atom-level test events in evaluation
+    order (short-circuit: `A and B` is false through [A false] or [A true, B false])."""
+    if isinstance(test, ast.BoolOp):
+        conj = isinstance(test.op, ast.And)
+        if want == conj:
+            # every operand evaluated, all with the same outcome
+            alts = [()]
+            for v in test.values:
+                alts = [a + b for a in alts for b in _test_alts(v, frame, want, s)]
+            return alts
+        out = []
+        prefix = [()]
+        for v in test.values:
+            for b in _test_alts(v, frame, want, s):
+                out += [a + b for a in prefix]
+            prefix = [a + b for a in prefix for b in _test_alts(v, frame, not want, s)]
+        return out
+    if isinstance(test, ast.UnaryOp) and isinstance(test.op, ast.Not) and isinstance(test.operand, ast.BoolOp):
+        return _test_alts(test.operand, frame, not want, s)
+    return [(Ev('test', test, frame, want, s),)]
+
+
 def _stmt(s, frame, budget):
     if isinstance(s, ast.If):
         out = []
         for ev, o in _seq(s.body, frame, budget):
-            out.append(((Ev('test', s.test, frame, True, s),) + ev, o))
+            for t in _test_alts(s.test, frame, True, s):
+                out.append((t + ev, o))
         for ev, o in _seq(s.orelse, frame, budget):
-            out.append(((Ev('test', s.test, frame, False, s),) + ev, o))
+            for t in _test_alts(s.test, frame, False, s):
+                out.append((t + ev, o))
         return out
     if isinstance(s, ast.While):
         out = []
